@@ -15,7 +15,7 @@ pub fn prop() -> Prop {
         rule: "case = (element type among f62/f64/f128 and their supported extensions; function; length in {0,1,2,1023,1024,1025,2047,2048,16*1024+-1, random <= 40000}; zero pattern in {none, start, end, every k-th, all}; base in {0,1,-1,random}). Oracle: element-wise definitions computed with reference arithmetic (full comparison up to 300 elements, first/last/boundary-of-batch + 40 generated indexes above), index formulas for grouping/flattening/transposition. Non-trivial = length >= 2 (for inversion: contains a zero and a non-zero); distinct = hash of (type, function, length, pattern, seed).",
         assumptions: vec![
             "get_power_series and friends document no minimum length, so length 0 is in the domain",
-            "the thread-count clause (same values for every thread count around threads*1024) needs the concurrent build and is decided by ./check C06 (vdet), sub-check family 'batch'",
+            "the thread-count clause (same values for every thread count around threads*1024) is decided by the serial/concurrent differential stage of this check (vdet family 'batch'; evidence key thread_differential)",
         ],
         subs: vec![Sub::gen("batch", batch_case, 96, 24_000, 1_000_000), Sub::gen("slices", slice_case, 32, 100_000, 4_000_000)],
         required: vec!["len_0", "len_1024", "len_1025", "fn:batch_inversion", "fn:get_power_series", "fn:get_power_series_with_offset", "fn:add_in_place", "fn:mul_acc", "inversion_with_zero_and_nonzero", "fn:transpose_slice", "fn:group_slice_elements", "fn:flatten_vector_elements"],
